@@ -241,6 +241,47 @@ def rule_range(ctx):
     ctx.ob('C17.range', f'{g.fq}', 'for i in range(' in src and 'buf_base + i' in src, 'consecutive buffers use base + i for i in range(n)', g.node, g.module)
 
 
+def rule_convenience(ctx):
+    ctx.rule('C17.cmds', 'the convenience constructors head/tail/before/after/replace pass the add action of their name and their target at the '
+                         'constructor\'s target position; _process_mn_args emits control, bus index, channel count triples in order')
+    nm = ctx.repo.module('sc3.synth.node')
+    node = ctx.repo.cls('sc3.synth.node:Node')
+    table = U.literal(node.class_assigns.get('add_actions'))
+    ctx.require(isinstance(table, dict) and len(table) >= 10, 'C17.cmds', 'Node.add_actions table not bound')
+    n = 0
+    for cname in ('AbstractGroup', 'Synth'):
+        ci = ctx.repo.cls(f'sc3.synth.node:{cname}')
+        init = ci.methods['__init__']
+        for mn in ('head', 'tail', 'before', 'after', 'replace'):
+            f = ci.methods.get(mn)
+            if f is None:
+                continue
+            rets = [r for r in walk_local(f.node) if isinstance(r, ast.Return) and isinstance(r.value, ast.Call) and norm(r.value.func) == 'cls']
+            if not rets:
+                continue     # Synth.replace builds the command itself (covered by the command table)
+            n += 1
+            c = rets[-1].value
+            bound = {}
+            for i, a in enumerate(c.args):
+                if i + 1 < len(init.params):
+                    bound[init.params[i + 1]] = a
+            for kw in c.keywords:
+                bound[kw.arg] = kw.value
+            act = U.literal(bound.get('add_action')) if bound.get('add_action') is not None else None
+            ok = act in table and table[act] == table[mn] and bound.get('target') is not None and norm(bound['target']) == f.params[1]
+            ctx.ob('C17.cmds', f'{f.fq}:add-action', ok,
+                   f'{cname}.{mn} must construct with target={f.params[1]} and an add action equal to {mn!r} ({table[mn]}); '
+                   f'found target={norm(bound["target"]) if bound.get("target") is not None else None}, add_action={act!r}', f.node, nm)
+    ctx.require(n >= 9, 'C17.cmds', f'only {n} convenience constructors found')
+    pm = node.methods['_process_mn_args']
+    src = full(pm.node)
+    tp = pm.params[0]
+    ok = f'for control, bus in utl.gen_cclumps({tp}, 2):' in src and \
+        'data.extend([gpp.node_param(control)._as_control_input(), bus, 1])' in src and \
+        'data.extend([gpp.node_param(control)._as_control_input(), bus.index, bus.channels])' in src and src.endswith('return data')
+    ctx.ob('C17.cmds', f'{pm.fq}', ok, '/n_mapn arguments are (control, bus index, channel count) per pair, an int bus standing for one channel', pm.node, nm)
+
+
 def rule_bind(ctx):
     ctx.rule('C17.bind', 'BundleNetAddr.__exit__ restores the server address unconditionally and sends only when exc_type is None; '
                          'send_msg/send_bundle/send_clumped_bundles of the proxy only collect, in order')
@@ -264,6 +305,30 @@ def rule_bind(ctx):
     src = full(sl.node)
     ok = 'bundle = self._bundle[self._last_sync + 1:]' in src and 'if bundle: self._save_addr.send_clumped_bundles(time, *bundle)' in src
     ctx.ob('C17.bind', f'{sl.fq}', ok, 'the collected messages since the last sync are sent as one (clumped) bundle in issue order', sl.node, ci.module)
+    # sync inside the block: what was collected so far goes out before the sync is awaited, and the marker's index is what
+    # _send_last_bundle slices after (so nothing is sent twice and nothing is skipped)
+    sy = ci.methods['sync']
+    stm = [norm(x) for x in walk_local_ordered(sy.node) if isinstance(x, (ast.Expr, ast.Assign))]
+    def pos(t):
+        return next((i for i, x in enumerate(stm) if t in x), None)
+    p_flush, p_wait, p_mark, p_app = pos('self._send_last_bundle()'), pos('yield from self._save_addr.sync('), pos('self._last_sync = len(self._bundle)'), \
+        pos('self._bundle.append([self._SYNC_FLAG')
+    ok = None not in (p_flush, p_wait, p_mark, p_app) and p_flush < p_wait < p_mark < p_app
+    ctx.ob('C17.bind', f'{sy.fq}:flush-wait-mark', ok,
+           f'sync must flush the collected commands, then await the real sync, then record the marker index and append the marker; found {stm}', sy.node, ci.module)
+    sends = [x for x in walk_local(sy.node) if isinstance(x, ast.If) and norm(x.test) == 'self._send']
+    ok = len(sends) == 1 and all(any(t in norm(y) for y in sends[0].body) for t in ('self._send_last_bundle()', 'self._save_addr.sync(')) and \
+        not any('_last_sync' in norm(y) or '_bundle.append' in norm(y) for y in sends[0].body)
+    ctx.ob('C17.bind', f'{sy.fq}:only-when-sending', ok, 'flush and real sync only for a sending proxy; the marker is recorded in both modes', sy.node, ci.module)
+    sp = ci.methods['_split_bundles']
+    loops = [x for x in walk_local(sp.node) if isinstance(x, ast.For)]
+    ok = len(loops) == 1 and norm(loops[0].iter) == 'self._bundle' and 'curr.append(item)' in full(sp.node) and \
+        full(sp.node).endswith('res.append(curr) return res') and f'curr = [{sp.params[1]}]' in full(sp.node)
+    ctx.ob('C17.bind', f'{sp.fq}', ok, 'the collected commands are split at the sync markers in issue order, the first bundle carrying the given time, '
+           'and the last open bundle is kept', sp.node, ci.module)
+    gb = ci.methods['get_bundle']
+    ok = f'return [{gb.params[1]}, *self._bundle]' in full(gb.node) and f'return self._split_bundles({gb.params[1]})' in full(gb.node)
+    ctx.ob('C17.bind', f'{gb.fq}', ok, 'get_bundle returns time followed by every collected command in issue order (split at syncs)', gb.node, ci.module)
     bd = ctx.repo.func('sc3.synth.server:Server.bind')
     ctx.ob('C17.bind', f'{bd.fq}', full(bd.node).endswith('return nad.BundleNetAddr(self)'), 'bind returns the collecting proxy', bd.node, bd.module)
 
@@ -290,10 +355,25 @@ def run(ctx):
     rule_pair(ctx)
     rule_range(ctx)
     rule_bind(ctx)
+    rule_convenience(ctx)
     ctx.trust('scverif/refs/server_cmds.json written from the SuperCollider Server Command Reference')
 
 
 MUTANTS = [
+    dict(rule='C17.cmds', name='Group.after adds before', file='sc3/synth/node.py',
+         old="        return cls(target, 'addAfter')", new="        return cls(target, 'addBefore')"),
+    dict(rule='C17.cmds', name='Synth.tail passes the target as args', file='sc3/synth/node.py',
+         old="        return cls(def_name, args, target, 'addToTail')", new="        return cls(def_name, target, args, 'addToTail')"),
+    dict(rule='C17.cmds', name='mapn emits channels before index', file='sc3/synth/node.py',
+         old="                    bus.index, bus.channels])", new="                    bus.channels, bus.index])"),
+    dict(rule='C17.bind', name='bind sync records the marker index after appending it', file='sc3/base/netaddr.py',
+         old="        self._last_sync = len(self._bundle)\n        self._bundle.append([self._SYNC_FLAG, latency, elements])",
+         new="        self._bundle.append([self._SYNC_FLAG, latency, elements])\n        self._last_sync = len(self._bundle)"),
+    dict(rule='C17.bind', name='bind sync awaits before flushing', file='sc3/base/netaddr.py',
+         old="            self._send_last_bundle()\n            yield from self._save_addr.sync(None, latency, elements)",
+         new="            yield from self._save_addr.sync(None, latency, elements)\n            self._send_last_bundle()"),
+    dict(rule='C17.bind', name='split drops the open bundle', file='sc3/base/netaddr.py',
+         old="                curr.append(item)\n        res.append(curr)\n        return res", new="                curr.append(item)\n        return res"),
     dict(rule='C17.guard', name='(fix reverted) a freed bus is a valid control input', file='sc3/synth/bus.py',
          old="    def _as_control_input(self):\n        if self._index is None:\n            raise BusException('bus not allocated')\n        return self._index", new="    def _as_control_input(self):\n        return self._index"),
     dict(rule='C17.cmds', name='(fix reverted) Buffer.cue sends /b_read arguments out of order', file='sc3/synth/buffer.py',
